@@ -114,7 +114,8 @@ func lexTemplate(l *lexer) lexFn {
 	case "@goht":
 		return lexGohtStart
 	}
-	return nil
+	// any other line starting with '@' (a raw string or comment line) is ordinary Go code
+	return lexGoCode
 }
 
 func lexGohtStart(l *lexer) lexFn {
